@@ -798,3 +798,132 @@ def select_post(prop):
 def select_unit(prop):
     return Unit(f'{prop}.restore_select', REPO_PY, 'Repository.restore', select_setup, select_post(prop),
                 stmt=(_is_assign_to('snapshots_gen'), _is_assign_to('file_re')), prop=prop)
+
+
+# ------------------------------------------------------------------ restore(): loaders are started for every planned chunk,
+# and the failure of any of them fails the command (C04: no silent partial restore; C01: every reference is written)
+class _GenOver:
+    """`(elt for x in S)` over a symbolic collection: the collection and the element evaluated for a generic x"""
+    def __init__(self, over, item, elt):
+        self.over, self.item, self.elt = over, item, elt
+
+
+class _ExecCall:
+    def __init__(self, recv, args):
+        self.recv, self.args = recv, args
+
+
+def _with_gather(stmt):
+    return isinstance(stmt, (_ast.With, _ast.AsyncWith)) and 'gather' in _ast.unparse(stmt)
+
+
+def restore_tail_setup(b):
+    me = shared.repo_self(b)
+    b.me = me
+    ITEMS = models.opaque_type('ChunkRefItems')
+    ITEM = models.opaque_type('ChunkRefItem')
+    REFS_T = models.opaque_type('ChunkRefs', pytype='dict')
+    refs = sym.fresh(REFS_T, 'chunks_references')
+    b.refs = refs
+
+    def items(interp, st, args, kwargs):
+        yield st, SV(ITEMS, UF('refs_items', REFS_T, ITEMS)(args[0].z))
+
+    REFS_T.attrs = {'items': MethodModel('items', items)}
+
+    def comprehension(interp, st, itv, node):
+        gen = node.generators[0]
+        if gen.ifs or len(node.generators) != 1:
+            # a filtered generator starts loaders for a subset only
+            st.emit('filtered_generator')
+        x = sym.fresh(ITEM, 'ref_item')
+        saved = st.cur
+        st.push_frame(saved)
+        interp.assign_target(st, gen.target, x)
+        outs = list(interp.ev(node.elt, st))
+        if len(outs) != 1:
+            raise sym.Unsupported('generator element forks')
+        s2, v = outs[0]
+        s2.cur = saved
+        yield s2, _GenOver(itv, x, v)
+
+    ITEMS.comprehension = comprehension
+    b.bind('chunks_references', refs)
+    FD = models.opaque_type('FilesDigests', pytype='dict')
+    b.bind('files_digests', sym.fresh(FD, 'files_digests'))
+    b.fd = b.st.lookup('files_digests')
+    b.bind('finished_tracker', CM('tqdm'))
+    b.bind('bytes_tracker', CM('tqdm'))
+    LOADER = models.opaque_type('Executor')
+    b.bind('loader', sym.fresh(LOADER, 'loader'))
+    FN = models.opaque_type('LoaderFn')
+    b.bind('_download_chunk', sym.fresh(FN, '_download_chunk'))
+
+    def run_in_executor(interp, st, args, kwargs):
+        yield st, _ExecCall('loop', list(args))
+
+    b.bind('loop', Obj('loop', run_in_executor=Model('run_in_executor', run_in_executor)))
+
+    def gather(interp, st, args, kwargs):
+        rex = kwargs.get('return_exceptions', False)
+        st.emit('gather', args=list(args), return_exceptions=rex)
+        bad = st.copy()
+        bad.emit('loader_failed')
+        if rex is False:
+            yield bad, Raised(Exc('AnyError'))
+        else:
+            # the failed loader's exception comes back as a RESULT: an arbitrary exception (a missing object is
+            # FileNotFoundError / an HTTP error, not a ReplicatError)
+            yield bad, bad.new_py('list', [Exc('AnyError')])
+        st.emit('loaders_ok')
+        yield st, st.new_py('list', [None])
+
+    b.bind('asyncio', Obj('asyncio', gather=Model('asyncio.gather', gather)))
+
+    def namespace(interp, st, args, kwargs):
+        st.emit('result', kwargs=dict(kwargs))
+        yield st, sym.fresh(models.opaque_type('Namespace'), 'result')
+
+    b.bind('utils', Obj('utils', DefaultNamespace=Model('DefaultNamespace', namespace)))
+
+    def list_(interp, st, args, kwargs):
+        yield st, _ExecCall('list', list(args))
+
+    b.bind('list', Model('list', list_))
+
+
+def restore_tail_post(prop):
+    def post(res):
+        b = res.builder
+        n_bad = n_ok = 0
+        for p in res.paths:
+            kinds = [e.kind for e in p.st.events]
+            g = p.events('gather')
+            ok_shape = False
+            if len(g) == 1 and len(g[0].data['args']) == 1:
+                a = g[0].data['args'][0]
+                a = getattr(a, 'v', a)
+                if isinstance(a, _GenOver) and isinstance(a.elt, _ExecCall) and a.elt.recv == 'loop' and len(a.elt.args) == 3:
+                    ex, fn, star = a.elt.args
+                    over_ok = isinstance(a.over, SV) and z3.eq(a.over.z, UF('refs_items', b.refs.ty, a.over.ty)(b.refs.z))
+                    ok_shape = (over_ok and ex is b.st.lookup('loader') and fn is b.st.lookup('_download_chunk')
+                                and getattr(star, 'v', None) is a.item and 'filtered_generator' not in kinds)
+            # one loader per planned chunk reference: _download_chunk(digest, refs) for EVERY item of chunks_references
+            res.oblige(p, f'{prop}.restore_tail.loader_for_every_planned_chunk', z3.BoolVal(ok_shape))
+            if 'loader_failed' in kinds:
+                n_bad += 1
+                # whatever the failure of a loader is (missing object, I/O error, digest mismatch), restore fails
+                res.oblige(p, f'{prop}.restore_tail.any_loader_failure_fails_restore', z3.BoolVal(p.kind == 'raise'))
+            elif 'loaders_ok' in kinds:
+                n_ok += 1
+                r = p.events('result')
+                good = (p.kind == 'return' and len(r) == 1 and isinstance(r[0].data['kwargs'].get('files'), _ExecCall)
+                        and r[0].data['kwargs']['files'].recv == 'list' and r[0].data['kwargs']['files'].args[0] is b.fd)
+                res.oblige(p, f'{prop}.restore_tail.reports_the_planned_files', z3.BoolVal(bool(good)))
+        res.oblige([], f'{prop}.restore_tail.paths_checked', z3.BoolVal(n_bad >= 1 and n_ok >= 1))
+    return post
+
+
+def restore_tail_unit(prop):
+    return Unit(f'{prop}.restore_tail', REPO_PY, 'Repository.restore', restore_tail_setup, restore_tail_post(prop),
+                stmt=_with_gather, prop=prop)
